@@ -374,7 +374,10 @@ class MonWorld:
                         len(self.inst[name]), name in self.last_waited))
         extra_susp = sorted(set(self.state['suspended']) -
                             set(self.cfg['names']))
-        return (tuple(out), tuple(extra_susp),
+        # the order in which reevaluate visits the monitors (dict insertion
+        # order) decides which request gets which answer of a mixed event
+        order = tuple(self.state['monitors'])
+        return (tuple(out), order, tuple(extra_susp),
                 bool(self.zk_written) if self.cfg.get('restart') else None,
                 tuple(sorted((self.zk_written[-1] or {}).keys()))
                 if self.cfg.get('restart') and self.zk_written else None)
